@@ -24,7 +24,12 @@ def run(file, old, new, check_args, count=1, repo='/repo'):
 
 if __name__ == '__main__':
     a = sys.argv[1:]
+    count = 1
+    if '--count' in a:
+        k = a.index('--count')
+        count = int(a[k + 1])
+        del a[k:k + 2]
     i = a.index('--')
-    rc, out = run(a[0], a[1], a[2], a[i+1:])
+    rc, out = run(a[0], a[1], a[2], a[i+1:], count=count)
     print(out)
     print('exit', rc)
